@@ -1,8 +1,9 @@
 """C06 -- one-way TCP client: whole frames, in order, at most once, recovery (DESIGN 3/C06).
 (M) MC_OneWay: the design (send lock, buffered writer replaced at every dial, close after a failed write, single
     queue worker) implies MutualExclusion, FramesWhole, FreshStart, InOrderAtMostOnce, HeaderRight,
-    ErrMeansNotDelivered, NoLossSafe, Recovers, WriterErrorJustified for all interleavings of 2 (3) senders and all
-    placements of <= 2 (3) environment faults, direct and queue mode; NoLossWhenHealthy (liveness) under weak fairness;
+    ErrMeansNotDelivered, NoLossSafe, Recovers, WriterErrorJustified for all interleavings of 2 senders x 3 packs
+    (thorough: 3 senders x 5 packs, and 2 senders x 4 packs with <= 3 faults / 4 connections) and all placements of <= 2
+    environment faults, direct and queue mode; NoLossWhenHealthy (liveness) under weak fairness;
     three deliberately broken designs (no lock; writer kept across a reconnect; the background worker dialling
     without the send lock in direct mode -- golib before the repair) are refuted by TLC.
 (A) Trace_OneWay: the real OneWayTcpClient against a scripted loopback collector: concurrent senders, queue mode
